@@ -66,6 +66,9 @@ func (c *Case) keywordArgs() []string {
 		p := c.Perm % len(kw)
 		kw = append(append([]string{}, kw[p:]...), kw[:p]...)
 	}
+	if d := c.dupPair(sName, eName); d != "" {
+		kw = append(kw, d) // to the right of the pair that counts
+	}
 	return kw
 }
 
@@ -242,6 +245,9 @@ func (c *Case) source() string {
 	switch {
 	case c.Same:
 		b.WriteString(" (s2 s1)")
+	case c.Route2 == "fp" && c.T2 == "vector":
+		d := seq{typ: "list", el: append(parseToks(c.S2), parseTok("mg"), parseTok("mg"))}
+		b.WriteString(fmt.Sprintf(" (s2 (make-array %d :fill-pointer %d :initial-contents %s))", len(c.S2)+2, len(c.S2), d.lisp()))
 	case c.T2 != "":
 		b.WriteString(" (s2 " + c.seq2().lisp() + ")")
 	default:
@@ -595,6 +601,12 @@ func minimise(c Case, kind string) Case {
 	if cur.Prior {
 		try(func(v *Case) { v.Prior = false })
 	}
+	if cur.Dup != "" {
+		try(func(v *Case) { v.Dup = "" })
+	}
+	if cur.Route2 != "" {
+		try(func(v *Case) { v.Route2 = "" })
+	}
 	if cur.Same {
 		try(func(v *Case) { v.Same = false }) // an equal, separately built sequence-2
 	}
@@ -683,6 +695,20 @@ func exec(x *fw.Ctx, c Case) {
 	if c.Prior {
 		x.Cover("after-failed-call:" + c.Fn)
 	}
+	if c.Route2 != "" {
+		x.Cover("route2:" + c.Route2 + ":" + c.Fn)
+	}
+	if c.Dup != "" && c.dupPair(":start", ":end") != "" {
+		x.Cover("duplicate-keyword:" + c.Dup)
+	}
+	x.Cover("elements:" + c.flavourSeen())
+	x.Cover("cross:" + c.crossKey())
+	if c.Count != nil {
+		x.Cover("count-value:" + c.countClass())
+	}
+	if c.Fn == "merge" && strings.Contains(c.features(""), "ties") {
+		x.Cover("merge:ties-across-sequences")
+	}
 	if sp.fam == "sort" || sp.fam == "merge" {
 		if 8 < len(c.S1) {
 			x.Cover("long(9..30):" + c.Fn)
@@ -709,6 +735,12 @@ func exec(x *fw.Ctx, c Case) {
 		}
 		sig := fmt.Sprintf("fn=%s fail=%s feat=%s kw=%s typ=%s", c.Fn, kind, m.features(kind), m.kwSig(), m.typSig()) + m.decorSig()
 		msg := f.msg
+		if m.Dup != "" {
+			// a keyword given twice is handled by each function's own parser in
+			// one way for all sequences: the signature names function, failure
+			// kind and keyword only
+			sig = fmt.Sprintf("fn=%s fail=%s duplicate-keyword=%s", c.Fn, f.kind, m.Dup)
+		}
 		if rf := freshRouteFn[m.Route]; kind == "donor-modified" && rf != "" {
 			if in1 := oracle(&m).in1; in1 == "" || in1 == "=" {
 				// the function may modify sequence-1: that the donor changes with it
@@ -990,7 +1022,7 @@ func plan(tier string) *tierPlan {
 		p.decSq = seqsOver(3, 0, 3)
 		p.routes, p.same = buildRouteEntries(p.decSq, 4), buildSameEntries(p.decSq, 8)
 	} else {
-		p.routes, p.same = buildRouteEntries(p.decSq, 2), buildSameEntries(p.decSq, 4)
+		p.routes, p.same = buildRouteEntries(p.decSq, 2), buildSameEntries(p.decSq, 8)
 	}
 	plans[tier] = p
 	return p
@@ -1030,7 +1062,17 @@ func opt8(v int8) *int {
 	return ip(int(v))
 }
 
+// gen is genBase with, in a third of the cases (chosen by the index), two of
+// the four characters swapped for multi-byte ones.
 func gen(r *rand.Rand, i int, tier string) Case {
+	c := genBase(r, i, tier)
+	if (uint32(i)*2654435761>>7)%3 == 0 && unicodeVariant(&c) && c.Fn == "merge" {
+		c.S1, c.S2 = sortedBy(c.S1, c.Key, c.Pred), sortedBy(c.S2, c.Key, c.Pred)
+	}
+	return c
+}
+
+func genBase(r *rand.Rand, i int, tier string) Case {
 	sz := sizes(tier)
 	free := knobs{bounds: -1, bounds2: -1, fromEnd: -1, count: -1, key: -1, test: -1, minLen: 0, maxLen: 5}
 	switch {
@@ -1125,6 +1167,25 @@ func gen(r *rand.Rand, i int, tier string) Case {
 		dr := rand.New(rand.NewPCG(uint64(i), uint64(0xD14+int(e.rep))))
 		k := free
 		k.seq = p.decSq[e.seq]
+		switch e.route {
+		case "s2fp":
+			// sequence-2 is a vector with a fill pointer
+			k.key = 1 // quant, map: two sequences
+			c := genCase(dr, ft.sp, ft.typ, k)
+			s2AsFillPointerVector(&c)
+			c.Block = "routes"
+			return c
+		case "dupkw":
+			// a keyword given twice: the leftmost pair counts
+			k.bounds, k.count, k.fromEnd = 3, -1, -1
+			if ft.sp.fam == "two" || ft.sp.fam == "replace" {
+				k.bounds = -1
+			}
+			c := genCase(dr, ft.sp, ft.typ, k)
+			setDup(dr, &c)
+			c.Block = "routes"
+			return c
+		}
 		c := genCase(dr, ft.sp, ft.typ, k)
 		if c.T1 != "" {
 			c.Route = e.route
@@ -1185,7 +1246,15 @@ func init() {
 			"keywords drawn per index; (keyword-values) for every function with :start/:end, every sequence of length 0..3 over 2 symbols (thorough: 0..3 over 3 symbols and " +
 			"length 4 over 2) x every in-range :start/:end pair incl. absent x every :count absent,0..length+1 x both :from-end values, and for search/mismatch/replace " +
 			"every bounds quadruple on short sequence pairs; (pairs) both sequences of search mismatch replace merge union intersection set-difference subsetp map " +
-			"concatenate enumerated over lengths 0..3 (2 symbols, thorough 3 symbols). Seeded block: sequences of length 4..8, everything random. Every case also holds two " +
+			"concatenate enumerated over lengths 0..3 (2 symbols, thorough 3 symbols); (routes) every function x type with sequence-1 obtained from another operation " +
+			"instead of a literal - tail of a longer list (cdr), result of subseq / reverse / nreverse / delete, vector with a fill pointer below its capacity, vector grown by " +
+			"vector-push-extend - plus sequence-2 as a fill-pointer vector and a keyword given twice, on every sequence of length 0..3 over 2 (thorough 3) symbols, every second case " +
+			"after a failed call of the same function (its :key signals an error at the second element); (same) sequence-2 is the same object as sequence-1 for search mismatch " +
+			"replace (every bounds quadruple incl. absent: overlapping regions), the set functions, the quantifiers, the mapping functions, map-into and concatenate. " +
+			"Seeded block: sequences of length 4..8 (sort stable-sort merge also 9..30), everything random, 1/4 through a route, 1/8 same object, 1/8 after a failed call, 1/16 " +
+			"duplicate keyword, 1/16 fill-pointer sequence-2. In a third of all cases (chosen by the index) two of the four characters are multi-byte (\u20ac, \u00a7). " +
+			"The donor of a route is read again after the call (subseq and reverse are defined to return fresh sequences; a non-destructive function leaves the list its " +
+			"argument is a tail of, and the elements above the fill pointer, alone). Every case also holds two " +
 			"bystanders (a copy-seq of the first sequence taken before the call and a separately built equal sequence) that must be unchanged afterwards. " +
 			"distinct = distinct case; every case is non-trivial (the language pins the result). A failing case is reduced (keywords dropped, :key applied to the data, " +
 			"sequence types made uniform) before its signature is taken. Kept in a minority of cases because they are listed open findings: :from-end of search/mismatch, " +
@@ -1201,6 +1270,7 @@ func init() {
 			"the reference implementations in internal/c14/oracle.go are the language definition (ANSI CL 17.2/17.3, 14.2, 15.2) with slip's documented dialect: default test equal, strings immutable (fill/replace return a copy), optional sort predicate",
 			"element constructors (list, vector, cons), lambda and the builtin tests/keys used as arguments (eql equal = < char= char-equal car cdr 1+ char-code ...) work; they are observed by other checks",
 			"results are rendered by the harness's own printer (sl.Show; elements of octets and bit-vectors as the integers they are)",
+			"the operations that build routes work: cdr, make-array with :fill-pointer and :initial-contents, vector-push-extend, aref above the fill pointer, array-dimension, ignore-errors; subseq reverse nreverse delete used as routes are themselves under observation (a wrong derived sequence is signed derived-sequence-wrong)",
 		},
 	})
 }
